@@ -43,6 +43,8 @@ From Crusta Require Import Spec.AF Sat.Cnf Sat.Prog Model.Encoders Model.Graph M
 From Crusta Require Import Proofs.CallBounds Proofs.Decomp Proofs.SolverBasics.
 From Crusta Require Import Proofs.TopBase Proofs.TopMax Proofs.SolverTop.
 From Crusta Require Proofs.TopGaps.
+From Crusta Require Import Proofs.EncSpec Proofs.ProgLaws Proofs.MaxExtCore.
+From Crusta Require Proofs.Clauses Proofs.SolverWholeEx.
 Open Scope prog_scope.
 
 Theorem C18_stable_component_calls_partial : forall oracle thr c in_cc pol s,
@@ -121,6 +123,86 @@ Theorem C18_replay_fuel_tight :
                                  AuxCo g []) = Done (OExt (Some [0])) st').
 Proof. exact TopGaps.replay_fuel_tight. Qed.
 
+(* ---- the remaining sentences of the property text (Proofs/Clauses.v) ---- *)
+
+(* "CO and ST need at most two calls per component": at most twice the number of components the
+   query works on, however the run ends *)
+Theorem C18_two_calls_per_component : forall oracle thr g F,
+  valid_oracle oracle -> 1 <= thr -> view_good g F ->
+  forall s q e al fuel cert st0, s = CO \/ s = ST -> supported s q -> enc_ok s e -> al_ok s q F al ->
+  match run_query oracle thr fuel s q cert e g al st0 with
+  | Done _ s' | Abort s' | OutOfFuel s' =>
+      calls s' <= calls st0 + 2 * length (query_comps s q cert g al)
+  | Panic _ => False
+  end.
+Proof. exact Clauses.two_calls_per_component. Qed.
+
+(* "bounded by the number of candidate sets of the underlying base semantics of that component
+   (conflict-free, admissible or complete sets), up to a factor linear in the number of arguments
+   for the range-based semantics": the per-component bound [comp_bound] of C18_call_bound spelled
+   out; nb = number of candidate sets of the encoder's base family, np = number of preferred
+   extensions of the component (np <= nb: C18_preferred_count_le_candidates), n = its size *)
+Theorem C18_component_bound_values : forall e c,
+  let nb := length (all_base (enc_base e) (c_af c)) in
+  let np := length (all_exts PR (c_af c)) in
+  comp_bound GR e c = 0 /\ comp_bound CO e c = 2 /\ comp_bound ST e c = 2 /\
+  comp_bound PR e c = nb + np + 1 /\
+  comp_bound ID e c = 2 * nb + np + 2 /\
+  comp_bound SST e c = (length (c_ids c) + 2) * nb + 3 /\
+  comp_bound STG e c = (length (c_ids c) + 2) * nb + 3.
+Proof. exact Clauses.comp_bound_values. Qed.
+
+Theorem C18_preferred_count_le_candidates : forall b F, wf F -> b = BCo \/ b = BAdm ->
+  length (all_exts PR F) <= length (all_base b F).
+Proof. exact Clauses.pr_count_le_base. Qed.
+
+(* "for PR and ID no candidate set is ever examined twice" - the step behind the bounds
+   nb + np + 1 and 2 nb + np + 2.  While a MaximalExtensionComputer works on a component F (ids
+   0..n-1), the SAT session holds the encoder's clauses C followed by one blocking clause per set
+   examined so far: [cls s = C ++ map (bclause e n selv) Bs], where [bclause e n selv B] is "some
+   argument of the component outside B is accepted, or the selector variable selv is true".
+   [asm_ok e n selv allowedb asm cur]: the assumptions asm say exactly "selector false, every argument
+   of cur accepted (and, ideal flavour, only allowed arguments accepted)".  Then ANY Sat answer of a
+   valid oracle decodes to a set S of the base family that contains cur and is NOT contained in any
+   set examined before; in particular S differs from each of them.
+   What is proved beyond this step: that the sessions of the PR / ID loops always have this shape and
+   that the sets returned are pairwise different as sets is the ghost invariant [kinv] of
+   Proofs/MaxExtCore.v (fields [sepl (gSs g)], [sepl (gPs g)]), from which the bounds of
+   C18_call_bound are derived (pot_bound, pr_HBnd); it is not restated here about the event log. *)
+Theorem C18_sat_answer_is_new_candidate_partial : forall oracle, valid_oracle oracle ->
+  forall thr e F n, 1 <= thr -> compact_af F n ->
+  forall C selv allowedb s Bs asm cur m,
+  enc_clauses e thr false F = Some C -> 0 < selv ->
+  cls s = C ++ map (bclause e n selv) Bs ->
+  asm_ok e n selv allowedb asm cur -> (forall a, In a cur -> a < n) ->
+  answer_of oracle s asm = Sat m ->
+  let S := assignment_to_extension n e m in
+  basep (enc_base e) F S /\ incl cur S /\ forall B, In B Bs -> ~ incl S B.
+Proof. exact Clauses.sat_answer_is_new_candidate. Qed.
+
+(* its hypotheses are satisfiable: 0 <-> 1 (complete sets {}, {0}, {1}), the set [0] already
+   examined: the brute-force oracle answers a model that decodes to [1] *)
+Example C18_sat_answer_example :
+  let F := compact 2 [(0, 1); (1, 0)] in
+  exists C s m,
+    enc_clauses AuxCo 1 false F = Some C /\ compact_af F 2 /\
+    cls s = C ++ map (bclause AuxCo 2 9) [[0]] /\
+    asm_ok AuxCo 2 9 (fun _ => true) ([negate (zlit 9)] ++ []) [] /\
+    answer_of SolverWholeEx.bf_oracle s ([negate (zlit 9)] ++ []) = Sat m /\
+    assignment_to_extension 2 AuxCo m = [1].
+Proof.
+  cbv zeta. eexists. eexists. eexists.
+  split; [vm_compute; reflexivity|]. split.
+  { split; [reflexivity|]. intros a b [E|[E|[]]]; injection E as <- <-; lia. }
+  split.
+  { instantiate (1 := {| disc := CadicalLike;
+                         sess := {| rclauses := rev (_ ++ [bclause AuxCo 2 9 [0]]); reserved := 0; maxvar := 9 |};
+                         nsess := 1; calls := 0; rlog := [] |}).
+    unfold cls. cbn [sess rclauses map]. apply rev_involutive. }
+  split; [apply asm_search; reflexivity|].
+  split; vm_compute; reflexivity.
+Qed.
+
 Print Assumptions C18_stable_component_calls_partial.
 Print Assumptions C18_complete_query_calls_partial.
 Print Assumptions C18_call_bound.
@@ -130,3 +212,7 @@ Print Assumptions C18_replay_fuel_suffices.
 Print Assumptions C18_replay_fuel_general.
 Print Assumptions C18_replay_fuel_seq.
 Print Assumptions C18_replay_fuel_tight.
+Print Assumptions C18_two_calls_per_component.
+Print Assumptions C18_component_bound_values.
+Print Assumptions C18_preferred_count_le_candidates.
+Print Assumptions C18_sat_answer_is_new_candidate_partial.
